@@ -279,6 +279,32 @@ def smooth (win : Nat → List α) (x : List α) (windowLen : Nat) : Except Smoo
     let tot := w.sum
     .ok (convolveValid (w.map fun v => v / tot) s)
 
+/-! ### hamilton_filter: which calls succeed (shape / error branches of the glue)
+
+`X = np.ones((T−p−h+1, p+1))` raises `ValueError` for a negative row count; with zero rows `XᵀX` is the zero matrix
+and `np.linalg.solve` raises `LinAlgError`; `p = h = 0` makes `y[p+h−1:T] = y[−1:T]` a single element and the matrix
+product raises `ValueError`. Without `p`, `y[h:T] − y[0:T−h]` broadcasts only for `h ≤ T`. -/
+
+inductive HamStatus where
+  | ok            -- no regression involved (p omitted): always succeeds
+  | valueError
+  | linAlgError   -- zero rows: the normal equations are `0·b = 0`
+  | regress       -- at least one row: the outcome is that of the linear solve
+deriving DecidableEq, Repr
+
+def hamiltonGuard (T h : Nat) : Option Nat → HamStatus
+  | none => if h ≤ T then .ok else .valueError
+  | some p =>
+    if p + h = 0 then .valueError
+    else if T + 1 < p + h then .valueError
+    else if T + 1 = p + h then .linAlgError
+    else .regress
+
+/-- `periodogram(x, window, window_len)` after the FFT (not modelled): the raw ordinates `I` — already cut to the
+    `⌊n/2⌋+1` frequencies in `[0, π]` — are passed through `smooth`, whose `ValueError`s propagate -/
+def periodogramWindowed (win : Nat → List α) (I : List α) (windowLen : Nat) : Except SmoothErr (List α) :=
+  smooth win I windowLen
+
 /-! ### the ARMA *object*: explicit state and histories
 
 `ARMA` is a mutable object: `phi` / `theta` (property setters, each calling `set_params`), the plain attribute
@@ -462,19 +488,25 @@ def handle (toks : List String) : String :=
     match kvRats r "y", kvNat r "h", kv r "p" with
     | some y, some h, some ps =>
       if ps = "none" then
-        if y.length < h then "bad-op" else
-        let (c, t) := hamiltonNoP y h
-        showList showOpt c ++ "|" ++ showList showOpt t
+        match hamiltonGuard y.length h none with
+        | .ok =>
+          let (c, t) := hamiltonNoP y h
+          showList showOpt c ++ "|" ++ showList showOpt t
+        | _ => "ERR:ValueError"
       else
         match ps.toNat? with
         | none => "bad-op"
         | some p =>
-          if y.length + 1 ≤ p + h ∨ p + h = 0 then "bad-op" else
-          match hamOLS y h p with
-          | none => "ERR:LinAlgError"
-          | some b =>
-            let (c, t) := hamiltonP y h p b
-            showList showOpt c ++ "|" ++ showList showOpt t
+          match hamiltonGuard y.length h (some p) with
+          | .valueError => "ERR:ValueError"
+          | .linAlgError => "ERR:LinAlgError"
+          | .ok => "bad-op"
+          | .regress =>
+            match hamOLS y h p with
+            | none => "ERR:LinAlgError"
+            | some b =>
+              let (c, t) := hamiltonP y h p b
+              showList showOpt c ++ "|" ++ showList showOpt t
     | _, _, _ => "bad-op"
   | "simulate" :: r =>
     match kvRats r "phi", kvRats r "theta", kvRat r "sigma", kvRats r "eps" with
@@ -500,6 +532,19 @@ def handle (toks : List String) : String :=
       let sz := rankSize data k
       showList toString ((List.range sz.length).map (· + 1)) ++ "|" ++ showList showRat sz
     | _, _ => "bad-op"
+  | "pgram_window" :: r =>
+    match kvRats r "I", kvNat r "wl", kv r "window" with
+    | some I, some wl, some wn =>
+      let res :=
+        if wn = "flat" then some (periodogramWindowed flatWin I wl)
+        else if wn = "bartlett" then some (periodogramWindowed bartlett I wl)
+        else none
+      match res with
+      | none => "bad-op"
+      | some (.ok l) => showList showRat l
+      | some (.error .tooShort) => "ERR:ValueError:short"
+      | some (.error .tooSmall) => "ERR:ValueError:small"
+    | _, _, _ => "bad-op"
   | "pgram" :: r =>
     match kvNat r "n" with
     | some n => showList toString (pgramIdx n)
